@@ -5,6 +5,7 @@ from typing import Any, Type, Union, cast
 from typing_extensions import Literal
 
 from mashumaro.core.const import Sentinel
+from mashumaro.helper import pass_through
 from mashumaro.types import SerializationStrategy
 
 __all__ = ["Dialect"]
@@ -41,9 +42,22 @@ class Dialect:
             if isinstance(value, SerializationStrategy):
                 serialization_strategy[key] = value
             elif isinstance(
-                serialization_strategy.get(key), SerializationStrategy
+                strategy := serialization_strategy.get(key),
+                SerializationStrategy,
             ):
-                serialization_strategy[key] = value
+                # keep the directions the other dialect says nothing about
+                if strategy is pass_through:
+                    methods: dict[str, Union[str, Callable]] = {
+                        "serialize": strategy,
+                        "deserialize": strategy,
+                    }
+                else:
+                    methods = {
+                        "serialize": strategy.serialize,
+                        "deserialize": strategy.deserialize,
+                    }
+                methods.update(value)
+                serialization_strategy[key] = methods
             else:
                 (
                     serialization_strategy.setdefault(
